@@ -15,7 +15,8 @@ TECHNIQUE = ('runtime monitoring: outcome-class monitor on isolated '
              'post-state probe')
 RULE = ('grid: construct in {open parens, parens, brackets, nested CASE, '
         'nested calls, nested subqueries, a+a+.., a=a=.., a::b::.., nested '
-        'BEGIN, nested IF, (a,(a,.. lists, open CASE, a.a.a..} x depth in '
+        'BEGIN, nested IF, (a,(a,.. lists, open CASE, a.a.a.., and three of '
+        'them followed by further statements in the same input} x depth in '
         '{20,60,150,400} (thorough: + 1000, 2000) x sys.setrecursionlimit in '
         '{70,200,400,1000,5000} x entry point in {parse, parsestream, split, '
         'format and 5 option sets}; one subprocess per cell. Oracle: outcome '
@@ -32,7 +33,8 @@ ASSUMPTIONS = [
 
 CONSTRUCTS = ['open_parens', 'parens', 'brackets', 'case', 'calls',
               'subqueries', 'operators', 'comparisons', 'casts', 'begin',
-              'if', 'paren_lists', 'open_case', 'dots']
+              'if', 'paren_lists', 'open_case', 'dots', 'parens+multi',
+              'calls+multi', 'case+multi']
 ENTRIES = ['parse', 'parsestream', 'split', 'format', 'format_reindent',
            'format_aligned', 'format_strip_ops', 'format_python',
            'format_case']
